@@ -81,6 +81,71 @@ func c16WordOfProduct(c *big.Int, k int, target uint64) *big.Int {
 	return x
 }
 
+// c16MontAccExtreme returns canonical (a, b) whose Montgomery forms A = a*2^256, B = b*2^256 (mod m) make the accumulator after the
+// first round of the word-by-word Montgomery product A*B — (A0*B + q0*m) / 2^64 with q0 = A0*B0*(-1/m) mod 2^64 — fall into
+// [2^256 - 2^192, 2^256): A0 and q0 are chosen next to 2^64, B0 is solved for q0, the rest of B is taken from the admissible window.
+func c16MontAccExtreme(t *rapid.T, m *big.Int) (a, b *big.Int, ok bool) {
+	two64 := new(big.Int).Lsh(big.NewInt(1), 64)
+	r := gen.Rand(t, "montacc.seed")
+	v := int64(2*gen.Uniform(t, "montacc.v", 0, 1<<12) + 1) // odd, so that A0 is odd
+	u := int64(gen.Uniform(t, "montacc.u", 1, 1<<12))
+	a0 := new(big.Int).Sub(two64, big.NewInt(v))
+	q0 := new(big.Int).Sub(two64, big.NewInt(u))
+	mprime := new(big.Int).ModInverse(m, two64)
+	mprime.Neg(mprime).Mod(mprime, two64)
+	den := new(big.Int).Mul(a0, mprime)
+	den.Mod(den, two64)
+	inv := new(big.Int).ModInverse(den, two64)
+	if inv == nil {
+		return nil, nil, false
+	}
+	b0 := new(big.Int).Mul(q0, inv)
+	b0.Mod(b0, two64)
+	top := new(big.Int).Lsh(big.NewInt(1), 320)
+	qm := new(big.Int).Mul(q0, m)
+	lo := new(big.Int).Sub(top, new(big.Int).Lsh(big.NewInt(1), 256))
+	lo.Sub(lo, qm).Add(lo, a0).Sub(lo, big.NewInt(1)).Div(lo, a0) // ceil
+	hi := new(big.Int).Sub(top, big.NewInt(1))
+	hi.Sub(hi, qm).Div(hi, a0)
+	if lo.Sign() < 0 || hi.Cmp(lo) <= 0 {
+		return nil, nil, false
+	}
+	B := new(big.Int).Sub(b0, lo)
+	B.Mod(B, two64).Add(B, lo) // smallest value >= lo with low limb b0
+	span := new(big.Int).Sub(hi, B)
+	if span.Sign() < 0 {
+		return nil, nil, false
+	}
+	span.Rsh(span, 64)
+	if span.Sign() > 0 {
+		k := new(big.Int).SetBytes(gen.RandBytes(r, 32))
+		k.Mod(k, span)
+		B.Add(B, k.Lsh(k, 64))
+	}
+	if B.Cmp(m) >= 0 {
+		return nil, nil, false
+	}
+	A := new(big.Int).SetBytes(gen.RandBytes(r, 32))
+	A.Rsh(A, 64).Lsh(A, 64).Or(A, a0)
+	if A.Cmp(m) >= 0 {
+		A.SetBit(A, 255, 0)
+	}
+	// self-check of the construction
+	acc := new(big.Int).Mul(a0, B)
+	acc.Add(acc, qm)
+	if new(big.Int).Mod(acc, two64).Sign() != 0 {
+		t.Fatalf("HARNESS: Montgomery quotient not as solved")
+	}
+	acc.Rsh(acc, 64)
+	if acc.Cmp(new(big.Int).Lsh(big.NewInt(1), 256)) >= 0 || new(big.Int).Rsh(acc, 192).Cmp(new(big.Int).SetUint64(^uint64(0))) != 0 {
+		t.Fatalf("HARNESS: accumulator %x not in the top window", acc)
+	}
+	rinv := new(big.Int).ModInverse(new(big.Int).Lsh(big.NewInt(1), 256), m)
+	a = new(big.Int).Mul(A, rinv)
+	b = new(big.Int).Mul(B, rinv)
+	return a.Mod(a, m), b.Mod(b, m), true
+}
+
 // c16Residue draws a canonical residue mod m; ext reports whether an extreme limb was used.
 func c16Residue(t *rapid.T, label string, m *big.Int) (v *big.Int, ext bool) {
 	cls := gen.Pick(t, label+".class", "limbs", "limbs", "uniform", "near", "word-of-product")
@@ -250,7 +315,7 @@ func c16Check(t vt.TB, rec *stats.Recorder, f *c16Field, op string, got interfac
 
 func TestVerif_C16_Ops(t *testing.T) {
 	rec := stats.Get("C16", "ops")
-	rec.Rule("rapid: field in {p,n}; operands a,b canonical residues whose 64-bit limbs are drawn from {0,1,2,2^32-1,2^32,2^32+1,2^63-1,2^63,2^64-2,2^64-1, limbs of p and n and limb±1} or uniformly, or 0..4 / m-1..m-5, or uniform mod m; ops add, sub, neg, mul, square, select(cond 0/1), Set, Bytes/SetBytes round trip, Equal/IsZero, each binary op / Select / Opp also with the receiver aliasing the first, the second or both operands; oracle math/big mod m and result < m. Non-trivial: an operand with an extreme limb, or the result needed the final conditional correction (a+b>=m, a<b); distinct by (field,a,b).")
+	rec.Rule("rapid: field in {p,n}; operands a,b canonical residues whose 64-bit limbs are drawn from {0,1,2,2^32-1,2^32,2^32+1,2^63-1,2^63,2^64-2,2^64-1, limbs of p and n and limb±1} or uniformly, or 0..4 / m-1..m-5, or uniform mod m, or a pair solved so that the first-round accumulator of the Montgomery product is in the top 2^-64 of its range; ops add, sub, neg, mul, square, select(cond 0/1), Set, Bytes/SetBytes round trip, Equal/IsZero, each binary op / Select / Opp also with the receiver aliasing the first, the second or both operands; oracle math/big mod m and result < m. Non-trivial: an operand with an extreme limb, or the result needed the final conditional correction (a+b>=m, a<b); distinct by (field,a,b).")
 	t.Cleanup(stats.FlushAll)
 	rapid.Check(t, func(t *rapid.T) {
 		f := &c16Fields[gen.Int(t, "field", 0, 1)]
@@ -258,6 +323,17 @@ func TestVerif_C16_Ops(t *testing.T) {
 		b, eb := c16Residue(t, "b", f.m)
 		if gen.Int(t, "same", 0, 9) == 0 {
 			b = new(big.Int).Set(a)
+		}
+		if gen.Uniform(t, "montacc", 0, 5) == 0 {
+			// a PAIR of operands solved so that, in the word-by-word Montgomery multiplication of their internal forms, the accumulator
+			// after the FIRST round lies in the top 2^-64 of its range (top limb all ones): the state from which a carry into the next
+			// word is most easily lost. No single operand, limb or limb product controls that sum.
+			if x, y, ok := c16MontAccExtreme(t, f.m); ok {
+				a, b, ea, eb = x, y, true, true
+				if gen.Bool(t, "montacc-swap") {
+					a, b = b, a
+				}
+			}
 		}
 		A, err := f.set(gen.Pad32(a))
 		if err != nil {
@@ -275,6 +351,7 @@ func TestVerif_C16_Ops(t *testing.T) {
 		c16Check(t, rec, f, "add", f.bin("add", A, B), mod(new(big.Int).Add(a, b)), a, b)
 		c16Check(t, rec, f, "sub", f.bin("sub", A, B), mod(new(big.Int).Sub(a, b)), a, b)
 		c16Check(t, rec, f, "mul", f.bin("mul", A, B), mod(new(big.Int).Mul(a, b)), a, b)
+		c16Check(t, rec, f, "mul", f.bin("mul", B, A), mod(new(big.Int).Mul(a, b)), b, a)
 		c16Check(t, rec, f, "opp", f.un("opp", A), mod(new(big.Int).Neg(a)), a)
 		c16Check(t, rec, f, "square", f.un("square", A), mod(new(big.Int).Mul(a, a)), a)
 		c16Check(t, rec, f, "set", f.un("set", A), a, a)
